@@ -249,6 +249,7 @@ func runC05(c *Ctx) {
 	for i, cf := range cfgs {
 		mds[i] = cf.build()
 	}
+	step := c.Pick(4, 1)
 	loadCorpus()
 	var docs []string
 	for _, sd := range slotDocs(c) {
@@ -279,9 +280,28 @@ func runC05(c *Ctx) {
 		}
 		docs = append(docs, refs.String()+"\n\n"+defs.String())
 	}
+	// ATX headings with a trailing attribute block: the content line is re-cut around the closing
+	// sequence and the attributes, also when the content is empty. Each document is listed `step`
+	// times in a row so that it meets every (AutoID, Attr) combination in the quick rotation too.
+	nAtx := 0
+	for _, pre := range []string{"", "> ", "- ", "  "} {
+		for _, lv := range []string{"#", "##", "###"} {
+			for _, content := range []string{"", " ", "a", "a b", "\\#", "*e*"} {
+				for _, closing := range []string{"", " #", " ##", "#", "  ###  ", "\t#"} {
+					for _, attr := range []string{"{#id}", " {.c}", "  {k=v}", "{#i .c k=\"v\"}", "{", "{}"} {
+						d := pre + lv + " " + content + closing + attr + "\n"
+						for k := 0; k < step; k++ {
+							docs = append(docs, d)
+						}
+						nAtx++
+					}
+				}
+			}
+		}
+	}
+	ev.Set("atx_attribute_headings", nAtx)
 	ev.Set("documents", len(docs))
 	ev.Set("configurations", len(cfgs))
-	step := c.Pick(4, 1)
 	type wit struct{ d, c int }
 	var mu sync.Mutex
 	seen := map[string]int{}
